@@ -33,10 +33,12 @@ def partial_event(u, tid, f, ps, nb, names, route, nested=False):
     from sigtools import signatures, specifiers
     vals = {n: 10 + j for j, n in enumerate(names)}
     kw = {n: absig.DV[vals[n]] for n in names}
+    # (through sigtools.signature the bound positionals are UNHASHABLE values -- lists: a bound value is data, nothing may rely on hashing it)
+    pos = [[S] for _ in range(nb)] if route != 'plain' else [S] * nb
     if nested and (nb or names):
-        p = functools.partial(functools.partial(f, *([S] * nb)), **kw)
+        p = functools.partial(functools.partial(f, *pos), **kw)
     else:
-        p = functools.partial(f, *([S] * nb), **kw)
+        p = functools.partial(f, *pos, **kw)
     u.fns.ids[u.fns._key(p)] = 'p1'
     fl = flags(n=nb, names=names, vals=vals, pobj='p1')
     sig = signatures.signature(f)
@@ -105,7 +107,7 @@ def run(check, tier, seed, scratch):
         for k in range(3000 if quick else 80000):
             a, b = r2.randrange(len(UO)), r2.randrange(len(UI))
             fl = dict(c04.written_flags(UO[a], UI[b], r2), partial=False)
-            placement = ['auto_param', 'auto_param_default', 'auto_param_method', 'auto_param_nested'][k % 4]
+            placement = ['auto_param', 'auto_param_default', 'auto_param_method', 'auto_param_nested', 'auto_partial_nothing'][k % 5]
             if k % nshards == shard:
                 yield c04.prog_event('viapartial/%d-%s' % (k, placement), UO[a], UI[b], fl, placement)
 
